@@ -6,11 +6,12 @@ import (
 
 // Token classes returned by MySQLScan.
 const (
-	TokOther  = 0
-	TokString = 1
-	TokIdent  = 2
-	TokError  = 3
-	TokNumber = 4
+	TokOther   = 0
+	TokString  = 1
+	TokIdent   = 2
+	TokError   = 3
+	TokNumber  = 4
+	TokComment = 5 // a comment the tokenizer returns as a token (`//...`, `/*! ... */`)
 )
 
 // MySQLScan runs the library's own (MySQL dialect) tokenizer over sql and
@@ -39,6 +40,8 @@ func MySQLScan(sql string) (class []int, typ []int, start []int, end []int, val 
 			c = TokError
 		case sqlparser.INTEGRAL, sqlparser.DECIMAL, sqlparser.FLOAT:
 			c = TokNumber
+		case sqlparser.COMMENT:
+			c = TokComment
 		}
 		class = append(class, c)
 		typ = append(typ, t)
